@@ -406,18 +406,20 @@ func decimalValueFromString(numStr string, fracDigRequired uint8) (n Number, err
 
 	s := numStr
 	dx := strings.Index(s, ".")
-	var fracDig uint8
+	// The number of fraction digits of the literal is not bounded: count
+	// it in an int, a uint8 wraps at 256.
+	var fracDig int
 	if dx >= 0 {
-		fracDig = uint8(len(s) - 1 - dx)
+		fracDig = len(s) - 1 - dx
 		// remove first decimal, if dx > 1, will fail ParseInt below
 		s = s[:dx] + s[dx+1:]
 	}
 
-	if fracDig > fracDigRequired {
+	if fracDig > int(fracDigRequired) {
 		return n, fmt.Errorf("%s has too much precision, expect <= %d fractional digits", s, fracDigRequired)
 	}
 
-	s += space18[:fracDigRequired-fracDig]
+	s += space18[:int(fracDigRequired)-fracDig]
 
 	v, err := strconv.ParseInt(s, 10, 64)
 	if err != nil {
